@@ -28,6 +28,13 @@ func c08one(t *testing.T, out *verifh.Out, r *rand.Rand, dir string) {
 		nd.Repl = &fakes.Repl{Source: hosts[0], IO: true, SQL: true}
 		tree.Put("cascade_nodes/x9", map[string]string{"stream_from": hosts[0]})
 	}
+	// a cascade replica somewhere in the cluster: it is not an HA node and changes nothing about who is exempt
+	if r.Intn(3) == 0 {
+		nd := wd.AddNode("x8")
+		nd.ReadOnly, nd.SuperReadOnly = true, true
+		nd.Repl = &fakes.Repl{Source: hosts[0], IO: true, SQL: true}
+		tree.Put("cascade_nodes/x8", map[string]string{"stream_from": hosts[0]})
+	}
 	cfg := vConfig(local, dir)
 	cfg.SemiSync = semi
 	cfg.InactivationDelay = 30 * time.Second
